@@ -13,12 +13,12 @@ use std::{
 
 use fn_graph::{FnGraph, StreamOpts, StreamOutcome};
 use futures::FutureExt;
-use interruptible::{InterruptSignal, InterruptibilityState};
 use serde::{Deserialize, Serialize};
 use tokio::sync::mpsc;
 
 use crate::{
     exec::{catch_quiet, start, Ev, FlagWaker, Sh, Shared, Taken},
+    ishim::{mk_state, InterruptSignal, InterruptibilityState},
     node::Node,
 };
 
@@ -149,10 +149,16 @@ pub struct RunCfg {
     /// before the explored run starts.
     #[serde(default)]
     pub pre: Option<Box<RunCfg>>,
+    /// Every poll runs inside a tokio task whose cooperative budget starts at this value (128 is
+    /// tokio's; less = the user's own futures used some of it in that tick). None = polled outside
+    /// a runtime, where the budget is unconstrained.
+    #[serde(default)]
+    pub task_budget: Option<u16>,
 }
 
 /// The three StreamOpts builder steps in one of the 6 possible call orders.
 /// I = interruptibility_state, N = interrupted_next_item_include, R = rev (only if requested).
+#[cfg(feature = "interruptible")]
 pub fn build_opts<'rx, 'intx>(order: u8, state: InterruptibilityState<'rx, 'intx>, include: bool, rev: bool) -> StreamOpts<'rx, 'intx> {
     const ORDERS: [[u8; 3]; 6] = [[0, 1, 2], [0, 2, 1], [1, 0, 2], [1, 2, 0], [2, 0, 1], [2, 1, 0]];
     let mut opts = StreamOpts::new();
@@ -171,6 +177,17 @@ pub fn build_opts<'rx, 'intx>(order: u8, state: InterruptibilityState<'rx, 'intx
         };
     }
     opts
+}
+
+/// Without the `interruptible` feature StreamOpts has one builder step only.
+#[cfg(not(feature = "interruptible"))]
+pub fn build_opts<'rx, 'intx>(_order: u8, _state: InterruptibilityState<'rx, 'intx>, _include: bool, rev: bool) -> StreamOpts<'rx, 'intx> {
+    let opts = StreamOpts::new();
+    if rev {
+        opts.rev()
+    } else {
+        opts
+    }
 }
 
 impl RunCfg {
@@ -193,6 +210,7 @@ impl RunCfg {
             opts_order: 0,
             avoid: vec![],
             pre: None,
+            task_budget: None,
         }
     }
 
@@ -228,6 +246,9 @@ impl RunCfg {
         }
         if !self.budgets.is_empty() {
             s += &format!(" budgets={:?}x{}", self.budgets, self.budget_polls);
+        }
+        if let Some(b) = self.task_budget {
+            s += &format!(" in-tokio-task(budget {b} per poll)");
         }
         s
     }
@@ -459,7 +480,7 @@ impl<'a, Fut: Future<Output = Out>> Driver<'a, Fut> {
                     return self.finish(Status::Livelock, None);
                 }
                 let fut = &mut self.fut;
-                let r = match budget {
+                let r = match budget.or(cfg.task_budget) {
                     None => fut.as_mut().poll(&mut cx),
                     Some(b) => crate::budget::poll_with_budget(b, || fut.as_mut().poll(&mut cx)),
                 };
@@ -577,12 +598,7 @@ pub fn run_on(g: &mut FnGraph<Node>, cfg: &RunCfg, prefix: Vec<u16>) -> RunRes {
 
 fn run_inner(g: &mut FnGraph<Node>, cfg: &RunCfg, sh: &Sh) -> DriveRes {
     let (itx, mut irx) = mpsc::channel::<InterruptSignal>(4);
-    let state = match cfg.strat {
-        Strat::Non => InterruptibilityState::new_non_interruptible(),
-        Strat::Ignore => InterruptibilityState::new_ignore_interruptions((&mut irx).into()),
-        Strat::Finish => InterruptibilityState::new_finish_current((&mut irx).into()),
-        Strat::NextN(k) => InterruptibilityState::new_poll_next_n((&mut irx).into(), k),
-    };
+    let state = mk_state(cfg.strat, &mut irx);
     let opts = build_opts(cfg.opts_order, state, cfg.include, cfg.rev);
     let intx = if cfg.strat == Strat::Non { None } else { Some(&itx) };
     let limit = cfg.limit;
